@@ -39,7 +39,7 @@ def species_emitters(run, repo):
     nasa = 'pmutt.empirical.nasa'
     for cname in ('Nasa', 'Nasa9', 'Shomate'):
         ranks = {'seg0.T_low': 1, 'seg0.T_high': 5, 'seg1.T_low': 5, 'seg1.T_high': 9}
-        I = Interp(repo, order=RankOrder(ranks), max_depth=12)
+        I = Interp(repo, order=RankOrder(ranks))
         D = I.D
         name = text(I, 'spname', 4)
         els = DictV({'H': C(2), 'O': C(1)})
@@ -126,7 +126,7 @@ def species_emitters(run, repo):
 
 
 def phase_emitters(run, repo):
-    I = Interp(repo, max_depth=14)
+    I = Interp(repo)
     D = I.D
     fr = Frame(I, repo.module('pmutt'), {}, None, None)
     u = fr.apply(repo.cls('pmutt.omkm.units.Units'), [], {'length': 'm', 'quantity': 'mol', 'mass': 'g',
@@ -204,7 +204,7 @@ def reaction_emitters(run, repo):
     qual = 'pmutt.omkm.reaction.SurfaceReaction'
     ci = repo.cls(qual)
     for adsorption, user_ea in ((False, False), (True, False), (False, True)):
-        I = Interp(repo, max_depth=14)
+        I = Interp(repo)
         D = I.D
         fr = Frame(I, repo.module('pmutt'), {}, None, None)
         u = fr.apply(repo.cls('pmutt.omkm.units.Units'), [], {'act_energy': 'kJ/mol', 'quantity': 'mol',
@@ -286,7 +286,7 @@ def reaction_emitters(run, repo):
 
 def other_emitters(run, repo):
     # lateral interaction
-    I = Interp(repo, max_depth=12)
+    I = Interp(repo)
     D = I.D
     fr = Frame(I, repo.module('pmutt'), {}, None, None)
     u = fr.apply(repo.cls('pmutt.omkm.units.Units'), [], {'energy': 'kJ', 'quantity': 'mol', 'act_energy': 'kJ/mol'},
